@@ -1,27 +1,68 @@
 #!/venv/bin/python
-"""refactor_eval.py <dir with rK/patch.diff ...>: apply each behaviour-preserving patch to a scratch worktree of /repo HEAD,
-run every claimed quick check against it (SA_REPO_ROOT) and list the checks that raise an alarm or cannot analyse."""
+"""refactor_eval.py [name-prefix ...]: false-alarm measurement.
+
+Each /verif/refactored/<Cxx-rK>/patch.diff is a behaviour-preserving refactoring written by a sub-agent that saw only the
+property text.  Apply each to a scratch worktree of /repo HEAD (outside /repo and /verif, removed afterwards), run every
+claimed quick check against it (SA_REPO_ROOT) and list the checks that raise an alarm (exit 1) or cannot analyse (exit 2).
+Writes refactored/REPORT.md when run without arguments."""
 import json, os, pathlib, subprocess, sys, tempfile
+from concurrent.futures import ProcessPoolExecutor
 VERIF = pathlib.Path(__file__).resolve().parents[1]
 man = json.loads((VERIF / 'MANIFEST.json').read_text())
-base = pathlib.Path(sys.argv[1])
-out = {}
-for d in sorted(base.glob('r*/')):
+
+
+def one(d):
+    d = pathlib.Path(d)
     w = tempfile.mkdtemp(prefix='refwt-')
     subprocess.run(f'git -C /repo worktree add -f --detach {w} HEAD -q', shell=True, check=True)
     try:
         r = subprocess.run(f'git -C {w} apply {d}/patch.diff', shell=True, capture_output=True, text=True)
         if r.returncode != 0:
-            out[d.name] = {'applies': False, 'err': r.stderr[-200:]}
-            continue
-        env = dict(os.environ, SA_REPO_ROOT=w, SA_EVIDENCE_DIR=tempfile.mkdtemp(prefix='ref-ev-'))
+            return d.name, {'applies': False, 'err': r.stderr[-200:]}
+        ev = tempfile.mkdtemp(prefix='ref-ev-')
+        env = dict(os.environ, SA_REPO_ROOT=w, SA_EVIDENCE_DIR=ev)
         alarms = {}
+        norm = []
         for c in man['checks']:
             p = subprocess.run(c['quick_cmd'], shell=True, capture_output=True, text=True, env=env, cwd=str(VERIF))
+            for l in p.stdout.splitlines():
+                if l.startswith('NORMALISED') and l not in norm:
+                    norm.append(l)
             if p.returncode != 0:
-                lines = [l[:260] for l in p.stdout.splitlines() if l.startswith(('FINDING', 'ANALYSIS-ERROR'))]
-                alarms[c['property_id']] = {'exit': p.returncode, 'lines': lines[:3]}
-        out[d.name] = {'applies': True, 'alarms': alarms}
+                lines = [l[:300] for l in p.stdout.splitlines() if l.startswith(('FINDING', 'ANALYSIS-ERROR'))]
+                alarms[c['property_id']] = {'exit': p.returncode, 'lines': lines[:4]}
+        subprocess.run(['rm', '-rf', ev])
+        return d.name, {'applies': True, 'alarms': alarms, 'normalised': norm}
     finally:
         subprocess.run(f'git -C /repo worktree remove --force {w}', shell=True)
-print(json.dumps(out, indent=1))
+
+
+def main():
+    sel = sys.argv[1:]
+    dirs = sorted(str(d) for d in (VERIF / 'refactored').glob('C*-r*') if not sel or any(d.name.startswith(s) for s in sel))
+    with ProcessPoolExecutor(8) as ex:
+        res = dict(ex.map(one, dirs))
+    n_alarm = 0
+    lines = []
+    for name in sorted(res):
+        v = res[name]
+        if not v.get('applies'):
+            lines.append(f'| {name} | patch does not apply to HEAD | |')
+            continue
+        al = v['alarms']
+        if al:
+            n_alarm += 1
+        print(name, 'SILENT' if not al else {p: (a['exit'], a['lines'][:2]) for p, a in al.items()}, v['normalised'])
+        lines.append(f"| {name} | {'silent' if not al else ', '.join(f'{p} (exit {a[chr(101)+chr(120)+chr(105)+chr(116)]})' for p, a in al.items())} | "
+                     f"{'; '.join(x.replace('NORMALISED ', '') for x in v['normalised'])} |")
+    print(f'{len(res)} refactorings, {n_alarm} with an alarm or analysis error')
+    if not sel:
+        head = subprocess.run('git -C /repo rev-parse --short HEAD', shell=True, capture_output=True, text=True).stdout.strip()
+        (VERIF / 'refactored' / 'REPORT.md').write_text(
+            f'# Behaviour-preserving refactorings vs. the quick checks (repo HEAD {head})\n\n'
+            f'{len(res)} refactorings, {n_alarm} with an alarm or analysis error.\n\n'
+            '| refactoring | quick checks | normalisation applied |\n|---|---|---|\n' + '\n'.join(lines) + '\n')
+
+
+if __name__ == '__main__':
+    main()
